@@ -494,6 +494,64 @@ def run_db(iterative, root, L, codes, draws=(), unary_only=False):
     return True
 
 
+# ------------------------------------------------------------------ group E: rule sequences recorded by real searches
+import harness.e2e as e2e  # noqa: E402
+
+
+def prepare_detect(ctx):
+    """Mirror every insertion of a real search into a fresh RuleDB (linked to the same searcher) and compare
+    has_specification() with the reference after *every* insertion."""
+    ctx.mirror = RuleDB()
+    ctx.seq = []
+    ctx.det_fail = None
+    orig_add = ctx.db.add
+
+    def add(start, ends, rule):
+        orig_add(start, ends, rule)
+        if ctx.det_fail is not None:
+            return
+        m = ctx.mirror
+        if m._searcher is None:
+            m.link_searcher(ctx.db.searcher)
+        m.add(start, ends, rule)
+        cdb = ctx.classdb
+        kept = tuple(e for e, ch in zip(ends, rule.children) if not (rule.possibly_empty and cdb.is_empty(ch, e)))
+        ctx.seq.append((start, kept, bool(len(kept) == 1 and rule.is_two_way()), isinstance(rule, VerificationRule)))
+        L = len(cdb.comb_class_list)
+        rep, rd = reference_db(ctx.seq, L)
+        root = ctx.db.searcher.start_label
+        want = reference_has_spec(rep, rd, root, bool(ctx.pack.iterative))
+        got = m.has_specification()
+        if got != want:
+            ctx.det_fail = "after insertion %d (%r -> %r): has_specification()=%r, reference %r" % (len(ctx.seq), start, kept, got, want)
+
+    ctx.db.add = add
+
+
+def assert_detect(ctx):
+    if ctx.det_fail is not None:
+        raise Bad(ctx.det_fail)
+    core.observe("insertions checked", len(ctx.seq))
+    if any((not two) and len(k) == 1 and not v for _, k, two, v in ctx.seq):
+        core.observe("runs with one-way unary rules")
+
+
+def _explore_e(t, assert_fn, prepare):
+    global LAST_FAILURE
+    ok = e2e.body_opt(t, assert_fn, prepare)
+    if not ok:
+        LAST_FAILURE = e2e.LAST_FAILURE
+    return ok
+
+
+def check_opt(t: int) -> bool:
+    """
+    pre: e2e.tin(t)
+    post: _
+    """
+    return core.final(_explore_e(t, assert_detect, prepare_detect))
+
+
 NCODES = 39
 
 
@@ -576,6 +634,9 @@ def check_s5(d0: int, d1: int, d2: int, d3: int, d4: int) -> bool:
 
 def on_shape(shape):  # noqa: F811
     global CAP, NCODES
+    if "db" in shape:
+        e2e.on_shape(shape)
+        return
     CAP = int(shape.get("cap", 2))
     NCODES = len(insertion_codes(int(shape.get("L", 3)), bool(shape.get("unary"))))
 
@@ -623,10 +684,16 @@ def groups(tier):
         addh(False, 0, 2, 4, 1)
         addh(False, 1, 2, 4, 1)
         addh(True, 0, 2, 4, 1)
+    # E: rule sequences recorded by real searches (default database), recursive and iterative packs, one-way rules, symmetries
+    opts = ["plain", "iterative", "inferral", "symmetry", "factory2", "finite", "two", "oneway", "k"]
+    if tier == "thorough":
+        opts += ["inferral-symmetry", "two-inferral", "oneway-k", "finite-ev"]
+    gs += [g for g in e2e.std_groups(tier, dbs=("base",), opts=opts, sched=False, rng=False, S3=(tier == "thorough")) if g["fn"] == "check_opt"]
     return gs
 
 
 def selftest(tier):
+    e2e.selftest_universe(tier)
     # reference fixed points against the definitions on a few hand-made dictionaries
     rd = {0: {(1, 2)}, 1: {()}, 2: {(0,), (3,)}}
     assert gfp_prune(rd) == {0: {(1, 2)}, 1: {()}, 2: {(0,)}}
